@@ -64,8 +64,14 @@ def gen(rng, tier, index):
             "w": float(rng.uniform(3, 25)),  # up to amp * w^2 > g: resting spheres are thrown off the floor
             "axis": rng.normal(size=3).tolist(),
             "alpha": float(rng.choice([0.0, rng.uniform(0.02, 0.15)])),
-            "phase": float(np.pi / 2) if rng.random() < 0.8 else 0.0,  # mostly starting from rest (resting spheres stay consistent)
+            "from_rest": bool(rng.random() < 0.8),  # mostly starting from rest (resting spheres stay consistent)
         }
+        if rng.random() < 0.5:
+            # peak floor acceleration between 0.5 g and 3 g: resting spheres are thrown off and land again
+            a_max = float(rng.uniform(0.5, 3.0)) * 9.81
+            w = float(rng.uniform(max(5.0, np.sqrt(a_max / 0.1)), 30.0))
+            ground["motion"]["w"] = w
+            ground["motion"]["amp"] = (n0 * a_max / w**2).tolist()
     if not free and name != "BackwardEuler" and rng.random() < 0.3:
         # tangential restitution on sphere-plane contacts (the slip of the discrete friction law is then the restituted one)
         for co in scene["contacts"]:
